@@ -51,6 +51,7 @@ pub struct M13<C: Suite> {
     seed: u64,
     sks: Vec<SecretKey<C>>,
     lens: Vec<usize>,
+    base_lens: Vec<usize>,
     ids: Vec<Vec<u8>>,
     splits: Vec<(usize, usize)>,
     _c: PhantomData<C>,
@@ -76,6 +77,7 @@ impl<C: Suite> M13<C> {
             seed,
             sks,
             lens: lens_for(tier),
+            base_lens: crate::props::c11::base_lens(tier),
             ids: vec![vec![], b"id".to_vec(), data(seed, "c13-id", 64)],
             splits: vec![(2, 3), (3, 5)],
             _c: PhantomData,
@@ -110,9 +112,14 @@ impl<C: Suite> Model for M13<C> {
     fn init(&self) -> Vec<St> {
         let mut v = vec![];
         for s in SCHEMES {
+            let base = &self.base_lens;
             for k in 0..2 {
                 for &len in &self.lens {
                     for id in 0..self.ids.len() + SPECIAL_MESSAGES.len() {
+                        // lengths only the dense band contributes: first key, first two identifiers
+                        if !base.contains(&len) && (k != 0 || id >= 2) {
+                            continue;
+                        }
                         if id >= self.ids.len() && !(len == 33 || len == 0) {
                             continue;
                         }
